@@ -5,7 +5,7 @@
 (* reads only inputs (file, cfg), observed results, and reference values   *)
 (* computed from the inputs.                                               *)
 (***************************************************************************)
-EXTENDS Chiritori, Layout, Listing
+EXTENDS Chiritori, Layout, Listing, Spell
 
 TokK(r)  == r[1]
 TokS(r)  == r[2]
@@ -308,29 +308,6 @@ C17 ==
 (***************************************************************************)
 (* C18 spelling independence.                                              *)
 (***************************************************************************)
-RenameName(n, c1, c2) ==
-  IF n = c1.tl THEN c2.tl ELSE IF n = c1.rm THEN c2.rm
-  ELSE IF n = <<SLASH>> \o c1.tl THEN <<SLASH>> \o c2.tl
-  ELSE IF n = <<SLASH>> \o c1.rm THEN <<SLASH>> \o c2.rm ELSE n
-
-RespellTag(tag, c1, c2) ==
-  LET body == TagBody(tag, c1.ds, c1.de)
-      i == SkipSet(body, 1, {SP})
-      e == WordEnd(body, i)
-  IN c2.ds \o SubSeq(body, 1, i - 1) \o RenameName(SubSeq(body, i, e - 1), c1, c2) \o SubSeq(body, e, Len(body)) \o c2.de
-
-Respell(t, c1, c2) ==
-  LET tk == RefTokens(t, c1.ds, c1.de) IN
-  ConcatAll([i \in 1..Len(tk) |-> IF tk[i].k = 0 THEN Slice(t, tk[i].s, tk[i].e)
-                                    ELSE RespellTag(Slice(t, tk[i].s, tk[i].e), c1, c2)])
-
-\* the delimiter strings of both spellings occur nowhere but as the delimiters of tags
-CleanlySpelled(t, c1, c2) ==
-  LET tk == RefTokens(t, c1.ds, c1.de) IN
-  \A i \in 1..Len(tk) :
-     LET x == IF tk[i].k = 0 THEN Slice(t, tk[i].s, tk[i].e) ELSE TagBody(Slice(t, tk[i].s, tk[i].e), c1.ds, c1.de)
-     IN \A dl \in {c1.ds, c1.de, c2.ds, c2.de} : \A ch \in SeqToSet(dl) : ch \in {SP, DASH} \/ \A j \in 1..Len(x) : x[j] # ch
-
 C18 ==
   (pc = "returned" /\ op \in {"clean", "list_json"}) =>
      \A i \in 1..(Len(hist) - 1) :
@@ -344,10 +321,6 @@ C18 ==
 (***************************************************************************)
 (* C19 idempotence and composition over time.                              *)
 (***************************************************************************)
-DelimsOnlyInTags(t, c) ==
-  LET tk == RefTokens(t, c.ds, c.de) IN
-  \A i \in 1..Len(tk) : tk[i].k = 0 => LET x == Slice(t, tk[i].s, tk[i].e) IN ~Occurs(x, c.ds) /\ ~Occurs(x, c.de)
-
 Commits == SelectSeq(hist, LAMBDA h : h.op = "commit")
 
 \* the commits so far form one chain: each ran on the previous result, clock and targets only grew
@@ -357,15 +330,23 @@ Chained(cs) ==
      /\ SameSpelling(cs[k].cfg, cs[k + 1].cfg)
      /\ ClockOnlyAdvances(cs[k].cfg, cs[k + 1].cfg) /\ TargetsOnlyGrow(cs[k].cfg, cs[k + 1].cfg)
 
-C19 ==
-  /\ (pc = "returned" /\ op = "clean" /\ Len(hist) >= 2) =>
+C19_Idem ==
+  (pc = "returned" /\ op = "clean" /\ Len(hist) >= 2) =>
         LET h == hist[Len(hist) - 1] IN
         (h.op = "commit" /\ h.cfg = cfg /\ h.out = LastSrc /\ DelimsOnlyInTags(h.src, cfg) /\ ~Doc(h.src, cfg).lenient)
            => out = LastSrc                                                              \* idempotence
-  /\ (pc = "returned" /\ op = "commit") =>
-        LET cs == Commits IN
-        (Chained(cs) /\ DelimsOnlyInTags(cs[1].src, cfg) /\ ~Doc(cs[1].src, cfg).lenient) =>
-           \A i \in 1..Len(hist) :
-              LET h == hist[i] IN
-              (h.op = "clean" /\ h.src = cs[1].src /\ h.cfg = cfg) => NonWs(out) = NonWs(h.out)   \* composition
+
+C19_CompSpace ==
+  LET cs == Commits IN
+  /\ pc = "returned" /\ op = "commit"
+  /\ Chained(cs) /\ DelimsOnlyInTags(cs[1].src, cfg) /\ ~Doc(cs[1].src, cfg).lenient
+  /\ WrapperLinesNeverTagged(cs[1].src, Doc(cs[1].src, cfg))
+
+C19_Comp ==
+  C19_CompSpace =>
+     \A i \in 1..Len(hist) :
+        LET h == hist[i] IN
+        (h.op = "clean" /\ h.src = Commits[1].src /\ h.cfg = cfg) => NonWs(out) = NonWs(h.out)   \* composition
+
+C19 == C19_Idem /\ C19_Comp
 =============================================================================
